@@ -74,6 +74,8 @@ type G struct {
 	prio      int
 	LastLine  string // last complete line written to a simulator-owned writer
 	lineBuf   map[string][]byte
+	lockWait  bool
+	lockEpoch int
 }
 
 func (g *G) Done() bool { return g.done }
@@ -149,6 +151,8 @@ type Sim struct {
 	Stats    map[string]int
 	lastPick *G
 	hash     uint64
+	unlockEpoch int
+	deadlocked  bool
 	Strip    string // run directory: replaced by $D before output is digested, so digests do not depend on temp names
 }
 
@@ -351,6 +355,35 @@ func Unlocked() {
 	if g := s.cur; g != nil && g.lockDepth > 0 {
 		g.lockDepth--
 	}
+	s.mu.Lock()
+	s.unlockEpoch++ // lock waiters become runnable again and retry
+	s.mu.Unlock()
+}
+
+// LockVia replaces x.Lock() / x.RLock(). An uncontended lock is taken at once. A contended one (its holder is
+// parked or blocked in a primitive) makes the caller wait *in the simulator* until some lock has been released,
+// then it retries; if nothing can ever release it the scheduler reports a deadlock.
+func LockVia(site int, try func() bool, lock func()) {
+	s := S
+	if s == nil || s.free.Load() || s.cur == nil {
+		lock()
+		return
+	}
+	g := s.cur
+	for !try() {
+		s.mu.Lock()
+		g.lockWait = true
+		g.lockEpoch = s.unlockEpoch
+		s.Stats["lock_wait"]++
+		s.mu.Unlock()
+		s.park(g, site)
+		g.lockWait = false
+		if s.free.Load() {
+			lock()
+			return
+		}
+	}
+	g.lockDepth++
 }
 
 // Wrap is applied to the function handed to errgroup's Go (or to a go statement): the child record is
@@ -498,6 +531,9 @@ func BlockEnd(t BlockTok) {
 func (s *Sim) runnable(prefix string) []*G {
 	var p []*G
 	for _, g := range s.gs {
+		if g.lockWait && g.lockEpoch == s.unlockEpoch {
+			continue // waits for a lock and nothing has been released since
+		}
 		if g.parked && !g.abandoned && !g.done && (prefix == "" || g.ID == prefix || strings.HasPrefix(g.ID, prefix+".")) {
 			p = append(p, g)
 		}
@@ -568,6 +604,7 @@ func (s *Sim) Drive(root *G) Outcome {
 			case <-time.After(10 * time.Minute):
 				idle++
 				if idle >= 6 {
+					s.deadlocked = true
 					return Deadlock
 				}
 			}
@@ -626,6 +663,11 @@ func (s *Sim) Abandon(prefix string) {
 
 // Drain lets every remaining goroutine run freely and unobserved so the bubble can end.
 func (s *Sim) Drain() {
+	if s.deadlocked {
+		// the goroutines can never finish; they stay parked (durably) and the bubble ends with the
+		// "blocked goroutines remain" panic that every harness recovers
+		return
+	}
 	s.free.Store(true)
 	s.cur = nil
 	for round := 0; round < 1000; round++ {
